@@ -18,9 +18,11 @@ namespace AcmedVerif.Flow
 
 abbrev KeyId := Nat
 
-/-- Problem-document class: the flow only distinguishes `accountDoesNotExist`
-(`http.rs:64-69` `is_acme_err`, `acme_proto/account.rs:11-31`). -/
-inductive ErrClass | accountDoesNotExist | other
+/-- Problem-document class: the flow distinguishes `accountDoesNotExist` (`http.rs:64-69`
+`is_acme_err`, `acme_proto/account.rs:11-31`) and, in `update_account_key` since d9d2cda
+(`acme_proto/account.rs:150-171`), `sigRefused` = what a CA answers to a signature it cannot verify
+with the key it holds: `unauthorized`, `malformed`, `badSignatureAlgorithm`, `badPublicKey`. -/
+inductive ErrClass | accountDoesNotExist | sigRefused | other
   deriving DecidableEq, Repr, Inhabited
 
 inductive OrderStatus | pending | ready | processing | valid | invalid
@@ -67,11 +69,15 @@ inductive Body
 
 /-- Result of one logical exchange (`Result<_, HttpError>`): a 2xx answer with a body, an ACME
 problem document (`HttpError::ApiError`), or anything else (`HttpError::GenericError`: connection
-cut, retries exhausted, bad nonce header, …). -/
+cut, retries exhausted, bad nonce header, …).
+`lost`: for the client the same as `otherErr` (`GenericError`), but the request had been delivered
+and PROCESSED by the CA before the answer was lost: the only difference is in the GHOST fields of
+`Acc` (what the CA holds advances although the client saw no 2xx). -/
 inductive ExRes
   | ok (body : Body)
   | acmeErr (ty : ErrClass)
   | otherErr
+  | lost
   deriving DecidableEq, Repr, Inhabited
 
 inductive CertContent | chain (leaf : KeyId) | garbage
@@ -100,10 +106,13 @@ def Body.certClass : Body → CertBody
 * `recKey`         : the key whose hash is stored in `key_hash` of the endpoint record.
 * `pastKeyKnown`   : `get_past_key(&ep.key_hash)` finds a key (`account.rs:143-152`).
 * `caKey`          : GHOST — the key the CA holds for this account (changes when a newAccount or
-                     keyChange exchange is answered 2xx).  Not read by the flow.
+                     keyChange exchange is answered 2xx, when a keyChange exchange is `lost` =
+                     processed but not answered, and when a POST-as-GET of the account signed
+                     by the CURRENT key is answered 2xx: the CA verified a signature of the
+                     current key for this `kid`).  Not read by the flow.
 * `caContactsOk`   : GHOST — the contacts the CA holds equal the configured ones (becomes true when
-                     an account is CREATED or a contact update is answered 2xx; an `existing`
-                     answer to newAccount leaves it as it is).  Not read by the flow. -/
+                     an account is CREATED, a contact update is answered 2xx or is `lost`; an
+                     `existing` answer to newAccount leaves it as it is).  Not read by the flow. -/
 structure Acc where
   hasUrl         : Bool
   contactsInSync : Bool
@@ -129,6 +138,21 @@ structure Cfg where
   ids     : List Ident
   deriving DecidableEq, Repr, Inhabited
 
+/-- How `update_account_key` finds out which key the CA holds (`acme_proto/account.rs`).
+* `none`         : it does not (before 5ce05e3): the roll-over request is sent, signed by the
+                   recorded key; a refusal is an error.
+* `afterRefusal` : 5ce05e3: a roll-over refused with an ACME error other than accountDoesNotExist
+                   is followed by a POST-as-GET of the account URL signed by the CURRENT key; 2xx ⇒
+                   the roll-over is recorded as done.
+* `first`        : 1fb1c1a + d9d2cda (working tree): BEFORE the roll-over a POST-as-GET of the
+                   account URL signed by the RECORDED (superseded) key; 2xx or accountDoesNotExist
+                   ⇒ the roll-over request as in `none`; an ACME error of class `sigRefused` ⇒
+                   POST-as-GET signed by the CURRENT key, 2xx ⇒ recorded as done (no roll-over
+                   request), otherwise the first error; any other ACME error, a transport error
+                   ⇒ returned. -/
+inductive RolloverCheck | none | afterRefusal | first
+  deriving DecidableEq, Repr, Inhabited
+
 /-- Which historical behaviour is modelled. `current` = the working tree. -/
 structure Variant where
   /-- a generated key is written at `get_key_pair` time, before finalize (before e6c79aa) -/
@@ -142,15 +166,25 @@ structure Variant where
   /-- binding changed: after the re-registration a pending contact edit is still sent when the
   key did not change (549b756) -/
   bindingThenContacts : Bool
+  /-- how the roll-over finds out which key the CA holds (5ce05e3, 1fb1c1a) -/
+  rolloverCheck : RolloverCheck
   deriving DecidableEq, Repr, Inhabited
 
-def Variant.current : Variant := ⟨false, true, true, true, true⟩
-def Variant.old : Variant := ⟨true, false, false, false, false⟩
+def Variant.current : Variant := ⟨false, true, true, true, true, .first⟩
+def Variant.old : Variant := ⟨true, false, false, false, false, .none⟩
+/-- The tree just before 5ce05e3: everything of `current` except that the roll-over never asks
+which key the CA holds. -/
+def Variant.preFix : Variant := ⟨false, true, true, true, true, .none⟩
+/-- The tree at 5ce05e3: the check comes after a refused roll-over. -/
+def Variant.at5ce05e3 : Variant := ⟨false, true, true, true, true, .afterRefusal⟩
 
 inductive ReqKind
   | directory | newAccount | accountUpdate | keyChange | newOrder
   | authz (a : Nat) | challengeReady (c : Nat) | authzPoll (a : Nat)
   | orderPoll | finalize | certDownload
+  /-- a POST-as-GET of the account URL made by `update_account_key` to find out which key the CA
+  holds (`acme_proto/account.rs:136-158`); the event's signer tells which of the two it is -/
+  | accountProbe
   deriving DecidableEq, Repr, Inhabited
 
 /-- How the request is authenticated: `encode_jwk`, `encode_kid`, or not at all (the directory
